@@ -22,9 +22,17 @@ cmake --build "$BD" -j16 --target romea_core_common >>"$BD.log" 2>&1
 build_demo /var/tmp/verif-seed-demo-clean || { echo "demo does not compile (clean)"; head -5 /var/tmp/verif-seed-demo-clean.log; }
 timeout 300 /var/tmp/verif-seed-demo-clean >/var/tmp/verif-seed-demo-clean.out 2>&1; C=$?
 echo "demo exit with change: $M ; without: $C"
-# our check against /repo with the change applied
-rm -rf "$OUT"; git -C /repo apply "$DIR/patch.diff" || { echo "RESULT patch does not apply to /repo"; exit 2; }
-( cd /verif && VERIF_OUT="$OUT" ./check "$ID" quick > "$OUT.log" 2>&1 ); K=$?
-git -C /repo checkout -- .
+# our check with the change applied: literally on /repo (default), or - while something else is using /repo -
+# on the scratch worktree through VERIF_REPO (CONFIRM_VIA_WORKTREE=1); tools/run_seeded.sh later repeats it on /repo
+rm -rf "$OUT"
+if [ "${CONFIRM_VIA_WORKTREE:-0}" = 1 ]; then
+  git -C "$WT" apply "$DIR/patch.diff" || { echo "RESULT patch does not apply"; exit 2; }
+  ( cd /verif && VERIF_REPO="$WT" VERIF_OUT="$OUT" ./check "$ID" quick > "$OUT.log" 2>&1 ); K=$?
+  git -C "$WT" checkout -q -- .
+else
+  git -C /repo apply "$DIR/patch.diff" || { echo "RESULT patch does not apply to /repo"; exit 2; }
+  ( cd /verif && VERIF_OUT="$OUT" ./check "$ID" quick > "$OUT.log" 2>&1 ); K=$?
+  git -C /repo checkout -- .
+fi
 echo "check $ID quick exit: $K"; grep -E "^VIOLATION|class=|HARNESS|BUILD" "$OUT.log" | head -8
 echo "RESULT tests='$T' demo_mut=$M demo_clean=$C check_exit=$K"
